@@ -5,6 +5,8 @@ CONSTANTS N = 3
  SkipPropMatch = FALSE
  SkipGater = FALSE
  UseSenderIdx = FALSE
+ SwapEpochFor = "none"
+ SignedGater = FALSE
  InnerProofPolicy = "either"
  VCBatchPolicy = "either"
 INVARIANTS TypeOK OnlyValidEnter ValidEnters PeerAllOrNothing
